@@ -3,8 +3,8 @@
 # works on a scratch worktree (/tmp/trywt), never on /repo itself, so that checks running on /repo are not disturbed
 export GOFLAGS=-mod=mod GOPROXY=off GOSUMDB=off GOTOOLCHAIN=local; unset GOWORK
 seed=$1; shift
-bin=/tmp/akv; [ -x $bin ] || bin=/verif/bin/akverif
-wt=/tmp/trywt; [ -d $wt ] || git -C /repo worktree add -q --detach $wt HEAD || exit 3
+bin=${AKV:-/tmp/akv}; [ -x $bin ] || bin=/verif/bin/akverif
+wt=${WT:-/tmp/trywt}; [ -d $wt ] || git -C /repo worktree add -q --detach $wt HEAD || exit 3
 git -C $wt checkout -q -- . ; git -C $wt apply /verif/seeded/$seed/patch.diff || exit 3
 mkdir -p /tmp/akvhome/evidence; cp /verif/known_findings.json /tmp/akvhome/
 for c in "$@"; do
